@@ -140,7 +140,9 @@ func (cfg *ChainCfg) chains(v ssa.Value, depth int, busy map[ssa.Value]bool, bin
 		return []Chain{{}}
 	}
 	if busy[v] {
-		return nil
+		// the value depends on itself: a container carried round a loop and merged into on every pass
+		// (each pass adds a layer over what the earlier passes left)
+		return []Chain{{Leaf{"unknown", "loop-carried:" + Prov(v), ""}}}
 	}
 	busy[v] = true
 	defer delete(busy, v)
